@@ -8,7 +8,7 @@ import struct
 import sys
 import time
 sys.path.insert(0, '/repo/src')
-from ssh_audit.kexdh import KexGroupExchange_SHA256      # noqa: E402
+from ssh_audit.kexdh import KexGroupExchange_SHA256, KexDHException      # noqa: E402
 from ssh_audit.outputbuffer import OutputBuffer           # noqa: E402
 from ssh_audit.protocol import Protocol                    # noqa: E402
 
@@ -34,9 +34,13 @@ worst = 0.0
 for nbytes in (256, 1024, 2048, 4096):
     k = KexGroupExchange_SHA256(OutputBuffer())
     t = time.time()
-    k.send_init_gex(ScriptedSocket(nbytes), 2048, 3072, 4096)
+    try:
+        k.send_init_gex(ScriptedSocket(nbytes), 2048, 3072, 4096)
+        how = 'one probe spends'
+    except KexDHException:
+        how = 'the group is refused after'
     dt = time.time() - t
     worst = max(worst, dt)
-    print('group of %5d bits handed out for a request of 2048..4096 bits: one probe spends %.2f s in send_init_gex' % (nbytes * 8, dt))
+    print('group of %5d bits handed out for a request of 2048..4096 bits: %s %.2f s in send_init_gex' % (nbytes * 8, how, dt))
 print('DEFECT: the time of one probe is chosen by the peer (modulus size), not bounded by the timeout' if worst > 3.0 else 'probe time within 3 x timeout')
 sys.exit(1 if worst > 3.0 else 0)
